@@ -1,15 +1,19 @@
 package samlsim
 
 import (
+	"bytes"
 	"encoding/base64"
 	"encoding/json"
 	"fmt"
+	"io"
+	"net/http"
 	"net/http/httptest"
 	"net/url"
 	"strings"
 	"testing"
 	"time"
 
+	"github.com/beevik/etree"
 	"github.com/crewjam/saml"
 )
 
@@ -22,6 +26,7 @@ import (
 type winKnobs struct {
 	MaxIssueDelayMs int64 `json:"MaxIssueDelay_ms"`
 	MaxClockSkewMs  int64 `json:"MaxClockSkew_ms"`
+	AudienceHook    bool  `json:"custom_audience_validator,omitempty"` // the application installs ValidateAudienceRestriction (accepts this SP's audience)
 }
 
 type winStep struct {
@@ -30,6 +35,7 @@ type winStep struct {
 	DelayMs  int64    `json:"delay_ms"`
 	SkewMs   int64    `json:"sp_skew_ms"`
 	ArtIssue int64    `json:"artifact_issue_ms,omitempty"`
+	BackMs   int64    `json:"backchannel_ms,omitempty"` // entry artifact-http: simulated time the artifact resolution round trip takes (part of the delivery delay)
 	Spec     RespSpec `json:"response"`
 	Classes  []string `json:"classes"`                 // generator's intent per bound (informational)
 	Lattice  int      `json:"lattice_point,omitempty"` // 1 + index of the enumerated lattice point (0: sampled case)
@@ -91,6 +97,7 @@ func genLattice(g *Rng, idx uint64) *Plan {
 	k := winKnobs{
 		MaxIssueDelayMs: Pick(g, int64(1000), 7000, 90_000, 660_000, 7_200_000),
 		MaxClockSkewMs:  Pick(g, int64(0), 1000, 180_000, 1_020_000),
+		AudienceHook:    g.Bool(0.15),
 	}
 	st := winStep{Kind: "deliver", Entry: Pick(g, "xml", "xml", "post"), Lattice: int(idx) + 1}
 	st.SkewMs = Pick(g, int64(0), 1000, -1000, 250_000, -250_000)
@@ -123,22 +130,26 @@ func genWindows(g *Rng, tier string) *Plan {
 	}
 	k := winKnobs{
 		MaxIssueDelayMs: Pick(g, int64(1000), 7000, 90_000, 660_000, 7_200_000),
-		MaxClockSkewMs:  Pick(g, int64(0), 1000, 180_000, 1_020_000),
+		MaxClockSkewMs:  Pick(g, int64(0), 1000, 180_000, 1_020_000, 1_020_000, -1000),
+		AudienceHook:    g.Bool(0.15),
 	}
 	p := &Plan{Knobs: mustJSON(k)}
 	n := 1 + g.PickW(6, 3, 1)
 	for i := 0; i < n; i++ {
-		st := winStep{Kind: "deliver", Entry: Pick(g, "xml", "xml", "post", "artifact")}
+		st := winStep{Kind: "deliver", Entry: Pick(g, "xml", "xml", "post", "artifact", "artifact-http")}
 		st.SkewMs = Pick(g, int64(0), 0, 1000, -1000, k.MaxClockSkewMs/2, -k.MaxClockSkewMs/2, 250_000, -250_000)
 		st.DelayMs = Pick(g, int64(0), 1, 500, 5000, 60_000, 600_000, 7_000_000) + g.Int63n(1000)
-		x := st.DelayMs + st.SkewMs // SP-now minus t0
+		if st.Entry == "artifact-http" {
+			st.BackMs = Pick(g, int64(0), 5, 1000, 90_000, 3_600_000)
+		}
+		x := st.DelayMs + st.BackMs + st.SkewMs // SP-now (when the response is examined) minus t0
 		mid, mcs := k.MaxIssueDelayMs, k.MaxClockSkewMs
 		spec := RespSpec{ID: fmt.Sprintf("id-resp-%d", i), Issuer: sp(idpEntity), Destination: spBase + "/saml/acs",
 			InResponseTo: "id-req", Status: saml.StatusSuccess, TimeForm: g.Intn(7)}
 		m, c := drawMargin(g, mid)
 		spec.IssueMs = x + m - mid
 		st.Classes = append(st.Classes, "resp-issue:"+c)
-		if st.Entry == "artifact" {
+		if strings.HasPrefix(st.Entry, "artifact") {
 			m, c = drawMargin(g, mid)
 			st.ArtIssue = x + m - mid
 			st.Classes = append(st.Classes, "art-issue:"+c)
@@ -170,6 +181,9 @@ func genWindows(g *Rng, tier string) *Plan {
 					Method: Pick(g, "", "", "", "urn:oasis:names:tc:SAML:2.0:cm:holder-of-key", "urn:oasis:names:tc:SAML:2.0:cm:sender-vouches")}
 				if c == "far-out" && g.Bool(0.4) {
 					cf.NOAText, cf.NotOnOrAfter = Pick(g, "0001-01-01T00:00:00Z", "0001-01-01T00:00:00.0004Z"), i64(-3_000_000_000_000)
+				}
+				if c == "far-in" && g.Bool(0.1) {
+					cf.NOAText, cf.NotOnOrAfter = Pick(g, "9999-12-31T23:59:59Z", "2400-01-01T00:00:00Z"), i64(10_000_000_000_000)
 				}
 				a.Confs = append(a.Confs, cf)
 				st.Classes = append(st.Classes, fmt.Sprintf("as%d-conf%d:%s", j, q, c))
@@ -224,7 +238,23 @@ func execWindows(t *testing.T, p *Plan) *Result {
 	saml.MaxClockSkew = ms(k.MaxClockSkewMs)
 	installRand(p)
 	idpMD := idpMetadataFor(idpEntity, idpSSO, idpSLO, []KeyPair{rsaKeys[0]}, nil, "signing")
+	idpMD.IDPSSODescriptors[0].ArtifactResolutionServices = []saml.Endpoint{{Binding: saml.SOAPBinding, Location: "https://idp.example.com/artifact"}}
 	spv := newSP(spBase, rsaKeys[1], "", idpMD)
+	if k.AudienceHook {
+		res.fire("config:custom-audience-validator")
+		spv.ValidateAudienceRestriction = func(a *saml.Assertion) error {
+			if a.Conditions != nil {
+				for _, ar := range a.Conditions.AudienceRestrictions {
+					if ar.Audience.Value == spBase+"/saml/metadata" {
+						return nil
+					}
+				}
+			}
+			return fmt.Errorf("not for this SP")
+		}
+	}
+	tr := &c02Transport{}
+	spv.HTTPClient = &http.Client{Transport: tr}
 	start := time.Now()
 
 	for si, raw := range p.Steps {
@@ -235,20 +265,24 @@ func execWindows(t *testing.T, p *Plan) *Result {
 		t0 := time.Now()
 		respEl := BuildResponseEl(&st.Spec, t0)
 		var body []byte
-		if st.Entry == "artifact" {
+		if st.Entry == "artifact-http" {
+			tr.respEl, tr.issue, tr.took = respEl, t0.Add(ms(st.ArtIssue)), ms(st.BackMs)
+		} else if st.Entry == "artifact" {
 			body = wrapArtifactResponse(respEl, "id-art", "id-resolve", idpEntity, saml.StatusSuccess, t0.Add(ms(st.ArtIssue)), nil)
 		} else {
 			body = elBytes(respEl)
 		}
 		advance(ms(st.DelayMs))
-		now := st.DelayMs + st.SkewMs
+		now := st.DelayMs + st.BackMs + st.SkewMs // the SP's clock when the response is examined
+		now0 := st.DelayMs + st.SkewMs            // ... and when the call began (differs only when the back-channel takes time)
 
 		// ---- oracle, from the statement and the spec only
 		respSt := upper(now, st.Spec.IssueMs, k.MaxIssueDelayMs)
-		if st.Entry == "artifact" {
+		if strings.HasPrefix(st.Entry, "artifact") {
 			respSt = worst(respSt, upper(now, st.ArtIssue, k.MaxIssueDelayMs))
 		}
 		asSt := map[string]int{}
+		movedAcross := false // a lower bound that the clock crossed during the call: acceptance is not demanded
 		anyInside, allOutside := false, true
 		nonFar := 0
 		for _, c := range st.Classes {
@@ -259,6 +293,9 @@ func execWindows(t *testing.T, p *Plan) *Result {
 		for _, a := range st.Spec.Assertions {
 			s := upper(now, a.IssueMs, k.MaxIssueDelayMs)
 			s = worst(s, lower(now, *a.NotBefore, k.MaxClockSkewMs))
+			if lower(now0, *a.NotBefore, k.MaxClockSkewMs) != 0 {
+				movedAcross = true
+			}
 			s = worst(s, upper(now, *a.NotOnOrAfter, k.MaxClockSkewMs))
 			for _, c := range a.Confs {
 				s = worst(s, upper(now, *c.NotOnOrAfter, k.MaxClockSkewMs))
@@ -275,7 +312,7 @@ func execWindows(t *testing.T, p *Plan) *Result {
 		switch {
 		case respSt == 2 || allOutside:
 			expect = "REJECT"
-		case respSt == 0 && anyInside:
+		case respSt == 0 && anyInside && !(st.BackMs > 0 && movedAcross):
 			expect = "ACCEPT"
 		}
 
@@ -296,6 +333,10 @@ func execWindows(t *testing.T, p *Plan) *Result {
 					as, err = spv.ParseResponse(r, []string{"id-req"})
 				case "artifact":
 					as, err = spv.ParseXMLArtifactResponse(body, []string{"id-req"}, "id-resolve", spv.AcsURL)
+				case "artifact-http":
+					r := httptest.NewRequest("GET", spv.AcsURL.String()+"?SAMLart="+url.QueryEscape(c02Artifact), nil)
+					_ = r.ParseForm()
+					as, err = spv.ParseResponse(r, []string{"id-req"})
 				}
 			})
 		})
@@ -313,6 +354,9 @@ func execWindows(t *testing.T, p *Plan) *Result {
 		if nonFar > 0 {
 			res.Nontrivial = true
 			res.fire("delay")
+			if st.BackMs > 0 {
+				res.fire("slow-backchannel")
+			}
 			if st.SkewMs != 0 {
 				res.fire("clock_skew")
 			}
@@ -342,7 +386,11 @@ func execWindows(t *testing.T, p *Plan) *Result {
 		}
 		switch expect {
 		case "DONT_CARE":
-			res.dontcare("boundary-equality")
+			if st.BackMs > 0 && movedAcross {
+				res.dontcare("lower-bound-crossed-during-the-call")
+			} else {
+				res.dontcare("boundary-equality")
+			}
 		case "ACCEPT":
 			if as == nil {
 				res.violate(si, "rejected-inside-window", "C02/rejected-inside/"+st.Entry, expect, observed, privErr(err))
@@ -371,6 +419,30 @@ func execWindows(t *testing.T, p *Plan) *Result {
 	return res
 }
 
+// c02Artifact is a well-formed type-4 artifact (endpoint index 0).
+var c02Artifact = base64.StdEncoding.EncodeToString(append([]byte{0, 4, 0, 0}, bytes.Repeat([]byte{7}, 40)...))
+
+// c02Transport is the artifact-resolution back-channel: the round trip takes simulated time, the
+// ArtifactResponse answers the ArtifactResolve it was sent.
+type c02Transport struct {
+	respEl *etree.Element
+	issue  time.Time
+	took   time.Duration
+}
+
+func (t *c02Transport) RoundTrip(r *http.Request) (*http.Response, error) {
+	b, _ := io.ReadAll(r.Body)
+	doc := etree.NewDocument()
+	_ = doc.ReadFromBytes(b)
+	id := ""
+	if ar := doc.FindElement("//ArtifactResolve"); ar != nil {
+		id = ar.SelectAttrValue("ID", "")
+	}
+	advance(t.took)
+	body := wrapArtifactResponse(t.respEl, "id-art", id, idpEntity, saml.StatusSuccess, t.issue, nil)
+	return &http.Response{StatusCode: 200, Status: "200 OK", Body: io.NopCloser(bytes.NewReader(body)), Header: http.Header{}, Request: r}, nil
+}
+
 func layoutOf(s *RespSpec) string {
 	l := ""
 	if s.Sign {
@@ -394,7 +466,7 @@ func bindingOf(st winStep, now int64, k winKnobs) string {
 	if upper(now, st.Spec.IssueMs, k.MaxIssueDelayMs) == 2 {
 		return "response-issue-instant"
 	}
-	if st.Entry == "artifact" && upper(now, st.ArtIssue, k.MaxIssueDelayMs) == 2 {
+	if strings.HasPrefix(st.Entry, "artifact") && upper(now, st.ArtIssue, k.MaxIssueDelayMs) == 2 {
 		return "artifact-issue-instant"
 	}
 	for _, a := range st.Spec.Assertions {
@@ -483,7 +555,7 @@ func simplifyWindows(p *Plan) []*Plan {
 func init() {
 	register(&Profile{
 		ID: "C02", Name: "windows", Level: "exploration",
-		Rule: "each run: 1-3 deliveries of a foreign-IdP response (1-2 assertions, 1-3 confirmations, 7 lexical time forms, 3 signing layouts, plaintext/encrypted, xml/post/artifact entry) whose every bound (response/artifact/assertion IssueInstant, NotBefore, NotOnOrAfter, each confirmation) is placed at a drawn position {far-in,+1ms,-1ms,far-out,edge,half-tolerance in/out} relative to SP-now = issue time + network delay + SP clock skew, with MaxIssueDelay/MaxClockSkew drawn per run; non-trivial = at least one bound is not far inside; distinct = distinct abstract event log (entry, form, position classes, expectation, outcome); every other run enumerates the lattice {far-in,+1ms,-1ms,far-out}^6 over the six bounds of a one-assertion two-confirmation response systematically (coverage.lattice_coverage); confirmations carry bearer / holder-of-key / sender-vouches methods; far-out bounds include the verbatim year-1 instant",
+		Rule: "each run: 1-3 deliveries of a foreign-IdP response (1-2 assertions, 1-3 confirmations, 7 lexical time forms, 3 signing layouts, plaintext/encrypted, xml/post/artifact entry) whose every bound (response/artifact/assertion IssueInstant, NotBefore, NotOnOrAfter, each confirmation) is placed at a drawn position {far-in,+1ms,-1ms,far-out,edge,half-tolerance in/out} relative to SP-now = issue time + network delay + SP clock skew, with MaxIssueDelay/MaxClockSkew drawn per run; non-trivial = at least one bound is not far inside; distinct = distinct abstract event log (entry, form, position classes, expectation, outcome); every other run enumerates the lattice {far-in,+1ms,-1ms,far-out}^6 over the six bounds of a one-assertion two-confirmation response systematically (coverage.lattice_coverage); confirmations carry bearer / holder-of-key / sender-vouches methods; far-out bounds include the verbatim year-1 instant, far-in bounds the customary never-expires instants (year 2400/9999); MaxClockSkew may be negative; artifact responses also arrive through ParseResponse over a back-channel whose round trip takes 0 ms-1 h of simulated time (bounds are judged by the SP clock when the response is examined; acceptance is not demanded when NotBefore was crossed during the call); 15% of runs install a custom ValidateAudienceRestriction",
 		Gen:  genWindows, Exec: execWindows, Simplify: simplifyWindows,
 		RunsQuick: 6000, RunsThorough: 600000,
 		Assumptions: []string{"instants are exact milliseconds (the library rounds to ms)", "exact equality with a bound is a declared don't-care"},
